@@ -69,6 +69,10 @@ def to_pym(e):
         return p.Min(tuple(to_pym(x) for x in e[1:]))
     if k == "max":
         return p.Max(tuple(to_pym(x) for x in e[1:]))
+    if k == "tuple":
+        return tuple(to_pym(x) for x in e[1:])       # containers of expressions (call arguments, yields)
+    if k == "list":
+        return [to_pym(x) for x in e[1:]]
     raise ValueError(f"bad sexpr {e!r}")
 
 # }}}
@@ -142,6 +146,10 @@ def to_src(e):
         return f"{name_src(e[1])}({', '.join(parts)})"
     if k == "sub":
         return f"{to_src(e[1])}[{to_src(e[2])}]"
+    if k == "tuple" and len(e) > 2:
+        return "(" + ", ".join(to_src(x) for x in e[1:]) + ")"
+    if k == "list":
+        return "[" + ", ".join(to_src(x) for x in e[1:]) + "]"
     raise ValueError(f"no source form for {k}")
 
 # }}}
@@ -379,6 +387,10 @@ def ev(e, env, whole=True):
             if isinstance(v, np.ndarray) or isinstance(v, complex) or is_boolish(v):
                 raise Undefined("min-max-operand")
         return min(vals) if k == "min" else max(vals)
+    if k == "tuple":
+        return tuple(ev(x, env) for x in e[1:])
+    if k == "list":
+        return [ev(x, env) for x in e[1:]]
     raise ValueError(f"bad sexpr {e!r}")
 
 
@@ -546,6 +558,10 @@ def from_pym(x):
                 return ["msub", from_pym(x.aggregate)] + [from_pym(i) for i in idx]
             idx = idx[0]
         return ["sub", from_pym(x.aggregate), from_pym(idx)]
+    if isinstance(x, tuple):
+        return ["tuple"] + [from_pym(c) for c in x]
+    if isinstance(x, list):
+        return ["list"] + [from_pym(c) for c in x]
     if isinstance(x, p.Min):
         return ["min"] + [from_pym(c) for c in x.children]
     if isinstance(x, p.Max):
